@@ -1,5 +1,6 @@
 import IblVerif.Model.Proto
 import IblVerif.Model.OpenSize
+import IblVerif.Model.OpenSizeLifecycle
 open IblVerif IblVerif.Proto IblVerif.OpenSize
 
 /-
@@ -14,6 +15,10 @@ IEEE binary64 arithmetic `floatArith`).  Floats travel as the decimal value of t
   onlinens <nc> <itemsize> <bytes>                             OnlineReader.ns on the current size
   cells <rows> <nc> <samples>                                  the (rows, nc) view of the file, row by row
   at <rows> <nc> <nsamples> <i> <j>                            flat position of element [i, j] or IndexError
+  reopen <off|on> <nc> <itemsize> <bytes0> <bytes1> <fs> <fileTimeSecs|->
+                                                               construct + open on bytes0, close, file now bytes1, open() again
+  nometa <size> <nc|-> <ns|-> <fs|-> <nsync|-> <itemsize>      Reader(bin[, nc=, ns=, fs=, nsync=]) without a .meta: inferred
+                                                               attributes, then the outcome of open
 -/
 
 def showErr : Err → String
@@ -25,6 +30,10 @@ def showErr : Err → String
 /-- optional float: `-` = the key is absent from the meta data -/
 def optF64? (s : String) : Option (Option Float) :=
   if s = "-" then some none else (f64? s).map some
+
+/-- optional keyword argument: `-` = not given -/
+def optNat? (s : String) : Option (Option Nat) :=
+  if s = "-" then some none else (nat? s).map some
 
 def kind? : String → Option Kind
   | "off" => some .offline
@@ -72,6 +81,25 @@ def step (t : List String) : String :=
       | .ok n => s!"ok {n}"
       | .error e => showErr e
     | _, _, _ => "bad-op"
+  | ["reopen", k, nc, isz, b0, b1, fs, fts] =>
+    match kind? k, nat? nc, nat? isz, nat? b0, nat? b1, f64? fs, optF64? fts with
+    | some k, some nc, some isz, some b0, some b1, some fs, some fts =>
+      match reopen floatArith k (.ofMeta nc fs fts) isz b0 b1 with
+      | .ok h => showOpened k h isz b1
+      | .error e => showErr e
+    | _, _, _, _, _, _, _ => "bad-op"
+  | ["nometa", size, nc, ns, fs, nsync, isz] =>
+    match nat? size, optNat? nc, optNat? ns, optNat? fs, optNat? nsync, nat? isz with
+    | some size, some nc, some ns, some fs, some nsync, some isz =>
+      match inferFlat size ⟨nc, ns, fs, nsync⟩ with
+      | .error .assertion => "err AssertionError"
+      | .error .typeError => "err TypeError"
+      | .ok f =>
+        let opened := match openBin floatArith .offline (f.toHdr : Hdr Float) isz size with
+          | .ok h => (showOpened .offline h isz size).replace " " "_"
+          | .error e => (showErr e).replace " " "_"
+        s!"ok nc={f.nc} ns={f.ns} fs={f.fs} nsync={f.nsync} open={opened}"
+    | _, _, _, _, _, _ => "bad-op"
   | ["cells", rows, nc, samples] =>
     match nat? rows, nat? nc, intList? samples with
     | some rows, some nc, some file =>
